@@ -132,17 +132,17 @@ def check_units(prog, rep):
     m = prog.module('convolution')
     entry = 'kernels'
     vals = m.assigns.get('UNITS', [])
-    if len(vals) != 1 or not isinstance(vals[0], ast.Dict):
-        raise AnalysisIncomplete('convolution.UNITS not found as a dict literal')
-    consts = {}
-    for n, v in m.assigns.items():
-        if len(v) == 1 and isinstance(const(v[0]), (int, float)):
-            consts[n] = Fraction(str(const(v[0])))
-    table = {}
-    for k, v in zip(vals[0].keys, vals[0].values):
-        key = const(k)
-        val = consts.get(v.id) if isinstance(v, ast.Name) else (Fraction(str(const(v))) if const(v) is not None else None)
-        table[key] = val
+    if len(vals) != 1:
+        raise AnalysisIncomplete('convolution.UNITS not found as one module-level table')
+    # the table's value, whatever builds it (dict literal, comprehension over a tuple table, named factors): consteval.py
+    from ..consteval import CannotFold, fold_expr
+    try:
+        raw = fold_expr(prog, m, vals[0])
+    except CannotFold as e:
+        raise AnalysisIncomplete('convolution.UNITS is not a constant table: %s' % e)
+    if not isinstance(raw, dict):
+        raise AnalysisIncomplete('convolution.UNITS is not a dict')
+    table = {k_: (Fraction(str(v_)) if isinstance(v_, (int, float)) and not isinstance(v_, bool) else None) for k_, v_ in raw.items()}
     for fam, (aliases, factor) in UNIT_FAMILIES.items():
         for a in sorted(aliases):
             rep.add('U1', m, entry, 'UNITS[%r] = %s' % (a, table.get(a)), vals[0].lineno, table.get(a) == factor,
@@ -178,20 +178,42 @@ def check_units(prog, rep):
             return n
     found = {'count': None, 'numeric': None, 'positive': None, 'unit': None}
     why = {}
+    # the token list: what re.split produced, directly, filtered by a comprehension, or collected by an append loop
+    toks = set()
+    for n in ast.walk(gdv.node):
+        if isinstance(n, ast.Assign) and isinstance(n.targets[0], ast.Name) and 're.split' in norm(n.value):
+            toks.add(n.targets[0].id)
+        if isinstance(n, ast.For) and ('re.split' in norm(n.iter) or (isinstance(n.iter, ast.Name) and n.iter.id in toks)):
+            for x in ast.walk(n):
+                if isinstance(x, ast.Call) and isinstance(x.func, ast.Attribute) and x.func.attr == 'append' and \
+                        isinstance(x.func.value, ast.Name):
+                    toks.add(x.func.value.id)
+
+    def from_tokens(e):
+        return 're.split' in norm(e) or any(isinstance(x, ast.Name) and x.id in toks for x in ast.walk(e))
+
+    def first_token(e):
+        return isinstance(e, ast.Subscript) and const(e.slice) == 0 and from_tokens(e.value)
     for i in [n for n in body if isinstance(n, ast.If) and any(isinstance(x, ast.Raise) for x in n.body)]:
         env = straightline_env(body, upto=i)
         t = inline(i.test, env)
         txt = norm(t).replace(' ', '')
         try:
-            if 'UNITS' in txt and isinstance(t, ast.Compare) and isinstance(t.ops[0], ast.NotIn) and norm(t.comparators[0]) == 'UNITS':
+            unit_expr = None
+            if 'UNITS' in txt and isinstance(t, ast.Compare) and isinstance(t.ops[0], ast.NotIn) and \
+                    norm(t.comparators[0]) in ('UNITS', 'UNITS.keys()'):
+                unit_expr = t.left
+            elif 'UNITS' in txt and isinstance(t, ast.Compare) and isinstance(t.ops[0], ast.Is) and const(t.comparators[0]) is None and \
+                    isinstance(t.left, ast.Call) and norm(t.left.func) == 'UNITS.get' and len(t.left.args) == 1:
+                unit_expr = t.left.args[0]          # UNITS.get(unit) is None: no unit factor is None (U1)
+            if unit_expr is not None:
                 lowered = any(isinstance(x, ast.Call) and isinstance(x.func, ast.Attribute) and x.func.attr in ('lower', 'casefold')
-                              for x in ast.walk(t.left))
+                              for x in ast.walk(unit_expr))
                 found['unit'] = (True, i)
                 found['lower'] = (lowered, i)
             elif '_is_numeric(' in txt:
                 ok = isinstance(t, ast.UnaryOp) and isinstance(t.op, ast.Not) and isinstance(t.operand, ast.Call) and \
-                    short(t.operand) == '_is_numeric' and norm(t.operand.args[0]).replace(' ', '').endswith('[0]') and \
-                    're.split' in norm(t.operand.args[0])
+                    short(t.operand) == '_is_numeric' and first_token(t.operand.args[0])
                 found['numeric'] = (ok, i)
             elif 'float(' in txt:
                 r = Repl(lambda n: short(n) == 'float', '__d')
@@ -199,12 +221,11 @@ def check_units(prog, rep):
                 sp = Spec(prog, {'__d': Rat.sym('d')}, m)
                 c = sp.it.cond_of(sp.it.ev(t2), t2)
                 vals = [eval_cond_full(c, {Sym('d'): Fraction(k)}) for k in (Fraction(-1), Fraction(0), Fraction(1, 2))]
-                first = any(isinstance(x, ast.Call) and short(x) == 'float' and norm(x.args[0]).replace(' ', '').endswith('[0]')
-                            for x in ast.walk(t))
+                first = any(isinstance(x, ast.Call) and short(x) == 'float' and first_token(x.args[0]) for x in ast.walk(t))
                 found['positive'] = (vals == [True, True, False] and first, i)
                 why['positive'] = 'rejects distances %s' % [str(k) for k, v in zip(('-1', '0', '1/2'), vals) if v]
-            elif 'len(' in txt and 're.split' in txt:
-                r = Repl(lambda n: short(n) == 'len', '__n')
+            elif 'len(' in txt and any(isinstance(x, ast.Call) and short(x) == 'len' and x.args and from_tokens(x.args[0]) for x in ast.walk(t)):
+                r = Repl(lambda n: short(n) == 'len' and n.args and from_tokens(n.args[0]), '__n')
                 t2 = ast.fix_missing_locations(r.visit(copy.deepcopy(t)))
                 if any(isinstance(x, ast.Name) and x.id != '__n' for x in ast.walk(t2)):
                     continue        # not a test of the token count alone
@@ -237,8 +258,7 @@ def check_units(prog, rep):
                 tm_ok = True
                 rv = ast.Call(func=ast.Name(id='_to_meters', ctx=ast.Load()), args=[va[0], un[0].slice], keywords=[])
         if tm_ok:
-            d_ok = any(isinstance(x, ast.Call) and short(x) == 'float' for x in ast.walk(rv.args[0])) and \
-                norm(rv.args[0]).replace(' ', '').count('[0]') >= 1
+            d_ok = any(isinstance(x, ast.Call) and short(x) == 'float' and first_token(x.args[0]) for x in ast.walk(rv.args[0]))
             u_low = any(isinstance(x, ast.Call) and isinstance(x.func, ast.Attribute) and x.func.attr in ('lower', 'casefold')
                         for x in ast.walk(rv.args[1]))
             lowered = lowered and u_low
@@ -304,6 +324,10 @@ def check_kernels(prog, rep):
     cast_ok = isinstance(rv, ast.Call) and short(rv) == 'astype' and isinstance(rv.func, ast.Attribute) and len(rv.args) == 1 and \
         norm(rv.args[0]) in ('float', 'np.float64', 'numpy.float64', "'f8'", "'float64'", 'np.float32', 'np.double')
     comp = rv.func.value if cast_ok else rv
+    if not cast_ok and isinstance(rv, ast.Call) and short(rv) == 'where' and len(rv.args) == 3 and \
+            const(rv.args[1]) in (1, 1.0) and const(rv.args[2]) in (0, 0.0) and \
+            isinstance(const(rv.args[1]), (int, float)) and not isinstance(const(rv.args[1]), bool):
+        cast_ok, comp = True, rv.args[0]        # np.where(mask, 1.0, 0.0): the same 0/1 floats
     if not isinstance(comp, ast.Compare):
         rep.add('E1', f, entry, 'ellipse inequality', f.node.lineno, None, 'comparison not found in %s' % norm(rv)[:80])
         return
@@ -323,7 +347,8 @@ def check_kernels(prog, rep):
                 'the condition must be even in both coordinates: the kernel is symmetric under both axis flips')
     rep.add('E1', f, entry, norm(rets[0])[:100], f.node.lineno, cast_ok, 'the boolean mask is returned as 0/1 floats')
     # circle_kernel: the ellipse with half sizes int(radius_in_metres / cell size of the own axis)
-    ck = m.funcs.get('circle_kernel')
+    from ..inline import inline_view
+    ck = inline_view(prog, m.funcs.get('circle_kernel'), keep=('_ellipse_kernel', '_get_distance'))   # half sizes may be computed in a small helper
     rets = [n for n in ck.own_nodes() if isinstance(n, ast.Return)]
     ok = False
     shown = None
@@ -343,12 +368,15 @@ def check_kernels(prog, rep):
             'half width = int(radius / cellsize_x), half height = int(radius / cellsize_y), passed as (half_w, half_h), the radius '
             'validated and converted to metres first')
     # annulus: outer circle minus the inner circle zero-padded symmetrically to the outer shape
-    ak = m.funcs.get('annulus_kernel')
+    ak = inline_view(prog, m.funcs.get('annulus_kernel'))      # the centred padding may live in a small helper
     circ = {}
+    ckp = m.funcs.get('circle_kernel').params
     for s_ in ak.node.body:
         if isinstance(s_, ast.Assign) and isinstance(s_.targets[0], ast.Name) and isinstance(s_.value, ast.Call) and \
-                short(s_.value) == 'circle_kernel' and len(s_.value.args) == 3:
-            a_ = [norm(x) for x in s_.value.args]
+                short(s_.value) == 'circle_kernel' and len(s_.value.args) + len(s_.value.keywords) == 3:
+            b_ = dict(zip(ckp, s_.value.args))
+            b_.update({k_.arg: k_.value for k_ in s_.value.keywords})
+            a_ = [norm(b_[p_]) if p_ in b_ else None for p_ in ckp[:3]]
             if a_[:2] == ak.params[:2]:
                 circ[s_.targets[0].id] = a_[2]
     outer = [n for n, r_ in circ.items() if r_ == ak.params[2]]
